@@ -66,6 +66,8 @@ pub struct Exec<const V: usize> {
     pub ref_registered: HashMap<u64, u8>,
     /// reference ids seen enqueued (for at-most-once)
     pub ref_enqueued: HashSet<u64>,
+    /// reference objects that were (possibly) dead when their table was scanned: dropped by MMTk
+    pub ref_maybe_dropped: HashSet<u64>,
     pub high_water: usize,
     pub gcs_seen: u64,
     pub last_full_exhaustive: bool,
@@ -110,6 +112,10 @@ fn oref(a: usize) -> ObjectReference {
 
 fn addr(a: usize) -> Address {
     unsafe { Address::from_usize(a) }
+}
+
+fn cv_counter(v: &Verdict, k: &str) -> u64 {
+    v.counters.get(k).copied().unwrap_or(0)
 }
 
 fn g_clear(gi: usize) {
@@ -192,6 +198,7 @@ impl<const V: usize> Exec<V> {
             fin_must_ready: vec![],
             ref_registered: HashMap::new(),
             ref_enqueued: HashSet::new(),
+            ref_maybe_dropped: HashSet::new(),
             high_water: 0,
             gcs_seen: 0,
             last_full_exhaustive: false,
@@ -578,6 +585,9 @@ impl<const V: usize> Exec<V> {
     }
 
     fn exec_op(&mut self, op: &Op) {
+        if std::env::var("VH_TRACE_OPS").is_ok() && !matches!(op, Op::Churn { .. }) {
+            eprintln!("    op {:?} marking={}", op, self.concurrent_marking_active());
+        }
         match op {
             Op::Alloc { m, root, extra, nrefs, kind, sem, align_log, offset_w, referent } => {
                 let m = self.pick_m(*m);
@@ -1224,6 +1234,110 @@ impl<const V: usize> Exec<V> {
                 }
                 cnt!(self, "dense_fill");
             }
+            Op::MarkingWindow { m, seed, n } => {
+                let mi = self.pick_m(*m);
+                if self.case.plan != "ConcurrentImmix" {
+                    return;
+                }
+                let mut rng = super::probes::Lcg(*seed as u64 ^ 0x9E37_79B9_7F4A_7C15);
+                // phase 0 (usually before marking starts): holders whose fields are the only path to their
+                // referents (sources of Hide), and holders with empty fields (destinations)
+                let code = |idx: usize| ((idx * 256 + ROOTS_PER_MUTATOR - 1) / ROOTS_PER_MUTATOR) as u8;
+                let base = rng.below(ROOTS_PER_MUTATOR);
+                for h in 0..4usize {
+                    let r = (base + h * 5) % ROOTS_PER_MUTATOR;
+                    let hid = self.alloc_obj(mi, 0, 6, KIND_PLAIN, 0, 0, 0);
+                    if hid == 0 {
+                        return;
+                    }
+                    let ha = self.objs[&hid].addr;
+                    self.set_root(mi, r, hid, ha);
+                    if h < 2 {
+                        for f in 0..6 {
+                            let sem = if f == 5 { 2 } else { 0 };
+                            let cid = self.alloc_obj(mi, if f == 5 { 70000 } else { 16 * f }, 1, KIND_PLAIN, sem, 0, 0);
+                            if cid == 0 {
+                                return;
+                            }
+                            let ca = self.objs[&cid].addr;
+                            let ha = self.root_addr(mi, r);
+                            let hid = self.roots[mi][r];
+                            self.write_field(mi, ha, f, ca, false);
+                            self.objs.get_mut(&hid).unwrap().fields[f] = cid;
+                        }
+                    }
+                }
+                // phase 1: allocate garbage until concurrent marking starts (bounded by the heap size)
+                let mut budget = (self.case.heap_kb as usize) * 1024;
+                while !self.concurrent_marking_active() && budget > 0 && self.verdict.ok {
+                    self.exec_op(&Op::Churn { m: *m, kb: 64, size: 96 });
+                    budget = budget.saturating_sub(64 * 1024);
+                }
+                if !self.concurrent_marking_active() {
+                    cnt!(self, "marking_window_not_started");
+                    return;
+                }
+                cnt!(self, "marking_window");
+                // phase 2: mutate while marking is in progress
+                let mut done = 0;
+                for _ in 0..(*n as usize) * 8 {
+                    if !self.concurrent_marking_active() || !self.verdict.ok {
+                        break;
+                    }
+                    let mut a = rng.below(256) as u8;
+                    let mut b = rng.below(256) as u8;
+                    let c = rng.below(256) as u8;
+                    let choice = rng.below(10);
+                    if choice <= 3 {
+                        // Hide: pick a source with a non-null field and a destination with slots among the roots
+                        let srcs: Vec<usize> = (0..ROOTS_PER_MUTATOR).filter(|r| { let id = self.roots[mi][*r]; id != 0 && self.objs[&id].kind == KIND_PLAIN && self.objs[&id].fields.iter().any(|f| *f != 0) }).collect();
+                        let dsts: Vec<usize> = (0..ROOTS_PER_MUTATOR).filter(|r| { let id = self.roots[mi][*r]; id != 0 && self.objs[&id].kind == KIND_PLAIN && self.objs[&id].nrefs > 0 }).collect();
+                        if !srcs.is_empty() && dsts.len() > 1 {
+                            a = code(srcs[rng.below(srcs.len())]);
+                            b = code(dsts[rng.below(dsts.len())]);
+                        }
+                    }
+                    let op = match choice {
+                        0..=3 => Op::Hide { m: *m, src: a, dst: b },
+                        4 => Op::Write { m: *m, src: a, field: c, dm: *m, dst: b, null: false },
+                        5 => Op::Write { m: *m, src: a, field: c, dm: *m, dst: b, null: true },
+                        6 => Op::OldYoung { m: *m, src: a, field: c, extra: (c as u16) * 4, via_region: c & 1 == 1 },
+                        7 => Op::Alloc { m: *m, root: a, extra: if c & 3 == 0 { 70000 } else { c as u32 * 8 }, nrefs: 3, kind: 0, sem: [0u8, 0, 2, 6][(c >> 2) as usize & 3], align_log: 0, offset_w: 0, referent: b },
+                        8 => Op::Load { m: *m, src: a, field: c, dst: b },
+                        _ => Op::DropRoot { m: *m, root: a },
+                    };
+                    self.exec_op(&op);
+                    safepoint();
+                    self.after_possible_gc();
+                    done += 1;
+                }
+                let _ = mi;
+                cnt!(self, "marking_window_ops", done);
+            }
+            Op::GcLoop { m, n, seed } => {
+                if self.is_nogc {
+                    return;
+                }
+                let mut rng = super::probes::Lcg(*seed as u64 ^ 0xD1B5_4A32_D192_ED03);
+                for _ in 0..(*n as usize) {
+                    if !self.verdict.ok {
+                        return;
+                    }
+                    let a = rng.below(256) as u8;
+                    let b = rng.below(256) as u8;
+                    match rng.below(4) {
+                        0 => self.exec_op(&Op::Chain { m: *m, root: a, n: (b % 12), extra: 40 + (b as u16 % 5) * 100, sem: 0 }),
+                        1 => self.exec_op(&Op::DropRoot { m: *m, root: a }),
+                        2 => self.exec_op(&Op::Alloc { m: *m, root: a, extra: 300 + b as u32 * 3, nrefs: 2, kind: 0, sem: 0, align_log: 0, offset_w: 0, referent: b }),
+                        _ => self.exec_op(&Op::Write { m: *m, src: a, field: b, dm: *m, dst: b, null: false }),
+                    }
+                    self.exec_op(&Op::Gc { m: *m, force: true, exhaustive: true });
+                }
+                cnt!(self, "gc_loop");
+                if *n >= 120 {
+                    cnt!(self, "gc_loop_long");
+                }
+            }
             Op::Hide { m, src, dst } => {
                 let m = self.pick_m(*m);
                 let s = Self::root_idx(*src);
@@ -1544,13 +1658,41 @@ impl<const V: usize> Exec<V> {
             // problems with the object itself (found through a possibly stale reference) are attributed
             // to the object holding that reference
             w.cur_holder = w.parent.get(&id).copied().unwrap_or(0);
+            let path_note = if std::env::var("VH_PATH").is_ok() {
+                let mut p = vec![];
+                let mut cur = id;
+                while let Some(par) = w.parent.get(&cur) {
+                    if *par == 0 || p.len() > 20 {
+                        break;
+                    }
+                    let o = &self.objs[par];
+                    p.push(format!("id {} @{:#x} {} alloc_gc={} survived={}", par, o.addr, o.space, o.alloc_gc, o.survived));
+                    cur = *par;
+                }
+                format!(" path-to-root: {:?}", p)
+            } else {
+                String::new()
+            };
+            let via_note = match self.objs.get(&w.cur_holder) {
+                Some(p) if matches!(p.kind, KIND_SOFT | KIND_WEAK | KIND_PHANTOM) && p.fields.first() == Some(&id) => format!(" [reached as the referent of reference object id {}]", p.id),
+                _ => String::new(),
+            };
             if !mm::is_in_mmtk_spaces(oref(a)) {
-                w.err(format!("object id {} at {:#x} is not in any MMTk space", id, a));
+                w.err(format!("object id {} at {:#x} is not in any MMTk space{}", id, a, via_note));
                 return;
+            }
+            // with VO bits every reachable object must still be a valid object for MMTk: catches objects
+            // whose memory was reclaimed (VO bit cleared, pages released) but not yet overwritten
+            #[cfg(feature = "vo_bit")]
+            {
+                if std::env::var("VH_NO_VOCHECK").is_err() && mm::is_mmtk_object(addr(a)).map(|r| r.to_raw_address().as_usize()) != Some(a) {
+                    w.err(format!("object id {} at {:#x} (space {}) is reachable but is_mmtk_object does not accept it (its memory was reclaimed?){}{}", id, a, mmtk::verif::space_name_of(addr(a)), via_note, path_note));
+                    return;
+                }
             }
             let raw = self.raw(a);
             if raw.id() != id || raw.size() != o.size || raw.nrefs() != o.nrefs || raw.kind() != o.kind {
-                w.err(format!("object id {} at {:#x}: header reads id={} size={} nrefs={} kind={}, expected size={} nrefs={} kind={}", id, a, raw.id(), raw.size(), raw.nrefs(), raw.kind(), o.size, o.nrefs, o.kind));
+                w.err(format!("object id {} at {:#x}: header reads id={} size={} nrefs={} kind={}, expected size={} nrefs={} kind={}{}", id, a, raw.id(), raw.size(), raw.nrefs(), raw.kind(), o.size, o.nrefs, o.kind, via_note));
                 return;
             }
             if (a - self.ro + o.offset) % o.align != 0 {
@@ -1607,7 +1749,7 @@ impl<const V: usize> Exec<V> {
                         continue;
                     }
                     if is_ref && i == 0 {
-                        if extra_soft && o.kind == KIND_SOFT && self.ref_registered.contains_key(&id) {
+                        if extra_soft && o.kind == KIND_SOFT && (self.ref_registered.contains_key(&id) || self.ref_maybe_dropped.contains(&id)) {
                             stack.push(*f);
                         }
                         continue;
@@ -1760,7 +1902,16 @@ impl<const V: usize> Exec<V> {
             // and non-moving spaces.  The signature is structural: plan + space of the object holding the
             // stale slot, so any other graph mismatch keeps the generic signature and is reported.
             let holder_space = w.err_holder.and_then(|h| self.objs.get(&h)).map(|o| o.space).unwrap_or("");
-            let sig = if prop == "C01" && self.case.plan == "Compressor" && matches!(holder_space, "immortal" | "nonmoving") { "compressor-stale-ref-from-immortal-or-nonmoving" } else { "graph-mismatch" };
+            let sig = if prop == "C01" && self.case.plan == "Compressor" && matches!(holder_space, "immortal" | "nonmoving") {
+                "compressor-stale-ref-from-immortal-or-nonmoving"
+            } else if self.case.plan == "ConcurrentImmix" && variant(V).layout == Layout::HeaderHeavy && cv_counter(&self.verdict, "pause_started_concurrent_marking") > 0 {
+                // known finding C12: with the log bit in the header the SATB barrier never fires
+                "concurrent-immix-header-log-bit-no-satb"
+            } else if prop == "C06" && e.contains("reached as the referent") {
+                "retained-referent-reclaimed"
+            } else {
+                "graph-mismatch"
+            };
             self.violate(prop, sig, format!("after GC #{} ({}): {}", self.gcs_seen, if full_heap { "full" } else { "nursery" }, e));
             return;
         }
@@ -1781,7 +1932,27 @@ impl<const V: usize> Exec<V> {
         }
 
         // --- C06 safety/completeness for reference objects
+        // A reference object that is itself dead when its table is scanned is dropped from the table and
+        // has its referent slot cleared without being enqueued (reference_processor.rs, process_reference:
+        // "If the reference is dead, we're done with it").  It can still survive the GC when a finalizable
+        // object resurrects it afterwards.  From then on nothing is asserted about it.
+        {
+            let dropped: Vec<u64> = self
+                .ref_registered
+                .iter()
+                .filter(|(rid, kind)| if **kind == KIND_PHANTOM { !r2_min.contains(rid) } else { !r1_min.contains(rid) })
+                .map(|(rid, _)| *rid)
+                .collect();
+            for rid in dropped {
+                self.ref_registered.remove(&rid);
+                self.ref_maybe_dropped.insert(rid);
+            }
+        }
         for (rid, fid) in &w.cleared {
+            if self.ref_maybe_dropped.contains(rid) {
+                cnt!(self, "ref_dead_reference_resurrected_found_cleared");
+                continue;
+            }
             let kind = self.objs[rid].kind;
             let retained_set = match kind {
                 KIND_SOFT => &r1_min,
@@ -1843,7 +2014,7 @@ impl<const V: usize> Exec<V> {
             }
             if exhaustive {
                 for (rid, _fid) in &w.cleared {
-                    if !self.ref_enqueued.contains(rid) {
+                    if !self.ref_enqueued.contains(rid) && !self.ref_maybe_dropped.contains(rid) {
                         self.violate("C06", "cleared-not-enqueued", format!("exhaustive GC #{}: reference id {} was cleared but never enqueued", self.gcs_seen, rid));
                         return;
                     }
@@ -1922,9 +2093,10 @@ impl<const V: usize> Exec<V> {
                         self.violate("C13", "forward-before-process", format!("GC #{}: process_weak_refs was called after forward_weak_refs", self.gcs_seen));
                         return;
                     }
+                    // Collection::post_forwarding is not part of C13 (and ConcurrentImmix's final pause never
+                    // schedules VMPostForwarding): counted as an observation only.
                     if post != 1 {
-                        self.violate("C13", "post-forwarding-count", format!("GC #{}: post_forwarding called {} times", self.gcs_seen, post));
-                        return;
+                        cnt!(self, "obs_post_forwarding_not_called_once");
                     }
                 }
                 // at the first call everything strongly reachable (and the soft/finalizer closure) must be reachable
